@@ -165,12 +165,14 @@ inline int& worker_index() { static int w = -1; return w; }
 inline int& result_fd() { static int fd = -1; return fd; }
 // End the case right here (used by engines that cannot unwind: a run stopped at quiescence, at a
 // step bound or on the first violation while OS threads are parked).  Never returns.
+inline bool& server_mode() { static bool b = false; return b; }
 [[noreturn]] inline void finish_now(const Outcome& o) {
     if (result_fd() >= 0) {
         std::string s = ser_outcome(o);
+        if (server_mode()) { uint32_t n = (uint32_t)s.size(); s = std::string((const char*)&n, 4) + s; }
         size_t off = 0;
         while (off < s.size()) { ssize_t w = write(result_fd(), s.data() + off, s.size() - off); if (w <= 0) break; off += w; }
-        _exit(0);
+        _exit(server_mode() ? 77 : 0);      // 77: "this child cannot serve another case" (not a crash)
     }
     printf("RESULT %s nontrivial=%d\n", o.status == 0 ? "ok" : o.status == 1 ? "violation" : "inconclusive", (int)o.nontrivial);
     for (auto& l : o.labels) printf("LABEL %s\n", l.c_str());
@@ -184,7 +186,7 @@ struct ForkRunner {
     int wall_limit_s = 120;
     // ---- persistent child ("server") mode: one child executes many cases; it is re-forked after a
     // crash, so a sanitizer abort still pins the exact case.  Only for harnesses without global state.
-    pid_t srv = -1; int to_srv = -1, from_srv = -1; long srv_cases = 0;
+    pid_t srv = -1; int to_srv = -1, from_srv = -1; long srv_cases = 0; long restart_every = 20000;
     static bool write_all(int fd, const std::string& s) {
         uint32_t n = (uint32_t)s.size();
         std::string buf((const char*)&n, 4); buf += s;
@@ -214,7 +216,7 @@ struct ForkRunner {
     }
     Outcome run_server(const RunFn& fn, const Case& c) {
         std::string errf = scratch + "/err." + std::to_string(getpid());
-        if (srv > 0 && srv_cases >= 20000) stop_server();      // bound quarantine / fragmentation growth
+        if (srv > 0 && srv_cases >= restart_every) stop_server();      // bound quarantine / fragmentation growth
         if (srv < 0) {
             int a[2], b[2];
             if (pipe(a) || pipe(b)) { perror("pipe"); exit(3); }
@@ -228,6 +230,7 @@ struct ForkRunner {
                 int nfd = open("/dev/null", O_WRONLY);
                 if (nfd >= 0) { dup2(nfd, 1); close(nfd); }
                 std::string msg;
+                server_mode() = true; result_fd() = b[1];
                 while (read_msg(a[0], &msg, 0)) {
                     std::string prop; Case cc;
                     from_text(msg, &prop, &cc);
@@ -243,13 +246,24 @@ struct ForkRunner {
         std::string reply;
         bool ok = write_all(to_srv, to_text("?", c)) && read_msg(from_srv, &reply, wall_limit_s);
         if (ok) return de_outcome(reply);
-        // crash or hang
+        // no reply: the child ended itself after the previous case (status 77), crashed, or hangs
         int st = 0; bool hung = false;
         pid_t r = waitpid(srv, &st, WNOHANG);
+        for (int i = 0; i < 100 && r == 0; i++) { usleep(20000); r = waitpid(srv, &st, WNOHANG); }   // let it finish dying / printing
         if (r == 0) { hung = true; kill(srv, SIGKILL); while (waitpid(srv, &st, 0) < 0 && errno == EINTR) {} }
         close(to_srv); close(from_srv); srv = -1;
+        if (hung) { Outcome o; o.status = Outcome::INCONCLUSIVE; o.msg = "wall-clock safety limit"; return o; }
+        if (WIFEXITED(st) && WEXITSTATUS(st) == 77 && !retrying) {
+            retrying = true;
+            Outcome o2 = run_server(fn, c);
+            retrying = false;
+            return o2;
+        }
+        return crash_outcome(st, errf);
+    }
+    bool retrying = false;
+    Outcome crash_outcome(int st, const std::string& errf) {
         Outcome o;
-        if (hung) { o.status = Outcome::INCONCLUSIVE; o.msg = "wall-clock safety limit"; return o; }
         std::string tail;
         { std::ifstream f(errf); std::stringstream ss; ss << f.rdbuf(); tail = ss.str();
           if (tail.size() > 3000) tail = tail.substr(0, 2200) + "\n...\n" + tail.substr(tail.size() - 700); }
@@ -402,6 +416,7 @@ inline int pbt_main(int argc, char** argv, Harness h) {
         _exit(o.status);    // skip static destructors of half-torn-down runtimes
     }
     if (!a.count("--search")) return usage();
+    signal(SIGPIPE, SIG_IGN);       // a persistent child may be gone when the next case is written to it
     uint64_t seed = strtoull(a["--seed"].c_str(), 0, 10);
     long cases = atol(a["--cases"].c_str());
     int max_size = a.count("--max-size") ? atoi(a["--max-size"].c_str()) : 100;
